@@ -452,6 +452,40 @@ func (x *Exec) encodeRune(r Int) Str {
 	return res
 }
 
+// deferred: evaluate function value and arguments now, call later.
+func (x *Exec) deferred(fr *frame, c *ssa.CallCommon) func() {
+	if c.IsInvoke() {
+		recv := x.resolve(x.get(fr, c.Value).(Iface))
+		args := []Val{}
+		for _, a := range c.Args {
+			args = append(args, x.get(fr, a))
+		}
+		return func() {
+			if recv.T == nil {
+				x.fail("nil-deref", "")
+			}
+			fn := x.P.prog.LookupMethod(recv.T, c.Method.Pkg(), c.Method.Name())
+			x.call(fn, append([]Val{recv.V}, args...), nil)
+		}
+	}
+	args := []Val{}
+	for _, a := range c.Args {
+		args = append(args, x.get(fr, a))
+	}
+	fv := x.get(fr, c.Value)
+	return func() {
+		switch f := fv.(type) {
+		case *ssa.Builtin:
+			x.builtin(f, args, c)
+		case Fn:
+			if f.F == nil {
+				x.fail("nil-deref", "")
+			}
+			x.call(f.F, args, f.Env)
+		}
+	}
+}
+
 func (x *Exec) doCall(fr *frame, c *ssa.CallCommon) Val {
 	if c.IsInvoke() {
 		recv := x.resolve(x.get(fr, c.Value).(Iface))
